@@ -64,6 +64,16 @@ var families = []family{
 	{"block-comment-lines", func(n int) string {
 		return join(n, func(i int) string { return fmt.Sprintf("/* note %d */ SELECT %d;", i, i) }, "\n")
 	}},
+	// comments AFTER code on their line (the serialisers re-attach these differently from comments on a line of their own)
+	{"trailing-line-comments", func(n int) string {
+		return join(n, func(i int) string { return fmt.Sprintf("SELECT a FROM t%d; -- note %d", i, i) }, "\n")
+	}},
+	{"trailing-block-comments", func(n int) string {
+		return join(n, func(i int) string { return fmt.Sprintf("SELECT %d; /* note */", i) }, "\n")
+	}},
+	{"inline-comments-in-list", func(n int) string {
+		return "SELECT\n" + join(n, func(i int) string { return fmt.Sprintf("  c%d, -- column %d", i, i) }, "\n") + "\n  z\nFROM t"
+	}},
 	{"comment-only-lines", func(n int) string { return join(n, func(i int) string { return "/* c */" }, "\n") + "\nSELECT 1" }},
 	{"blanks-then-comments", func(n int) string {
 		return strings.Repeat(" ", n*5) + join(n, func(i int) string { return "/*c*/" }, "") + " SELECT 1"
@@ -282,7 +292,7 @@ func main() {
 		tier = "quick"
 	}
 	run = core.NewRun("C20", tier, "model_checking")
-	run.Rule = "every family of the catalogue x every operation (quick: every family through tokenize/parse/format/scan-sql/lint and every operation on four families) at sizes n, 2n, 4n, the ladder starting where a call costs >= 15 ms and capped at 2.5 MiB (quick) / 10 MiB (thorough); non-trivial = a (family, operation) pair with three measured sizes of which the smallest costs >= 15 ms"
+	run.Rule = "every family of the catalogue x every operation (quick: every family through tokenize/parse/format/scan-sql/lint, every comment family through the comment-preserving formatter, and every operation on four families) at sizes n, 2n, 4n, the ladder starting where a call costs >= 15 ms and capped at 2.5 MiB (quick) / 10 MiB (thorough); non-trivial = a (family, operation) pair with three measured sizes of which the smallest costs >= 15 ms"
 	run.Assumptions = []string{
 		"cost is observed as user+system CPU time of the calling process (getrusage, minimum of three runs) and as bytes allocated; growth over two doublings above 11x (with each doubling above 2.8x for time, 3x for allocation) is called super-linear: linear gives 4x, n log n 4.4x, quadratic 16x",
 		"pairs whose calls stay below 15 ms at the size cap are judged on allocation only",
@@ -316,7 +326,8 @@ func main() {
 				if !runOps[o.name] {
 					continue
 				}
-			} else if tier != "thorough" && !quickOps[o.name] && !quickFams[f.name] {
+			} else if tier != "thorough" && !quickOps[o.name] && !quickFams[f.name] &&
+				!(o.name == "formatter-pkg" && strings.Contains(f.name, "comment")) { // the serialiser that re-attaches comments, on every comment family
 				continue
 			}
 			jobs = append(jobs, &job{fam: f.name, op: o.name})
